@@ -185,9 +185,26 @@ class Batch:
         self.lines.append(line); self.handlers.append(handler)
 
     def run(self, c):
-        ans = c.model(self.lines)
+        self.dispatch(c.model(self.lines))
+
+    def dispatch(self, ans):
         for a, h, l in zip(ans, self.handlers, self.lines):
             h(a, l)
+
+    def start(self, c):
+        """run the Lean driver in the background (the thread only waits for the subprocess); `wait` returns the answers"""
+        import threading
+        self._box = {}
+        def bg():
+            try: self._box['ans'] = c.model(self.lines)
+            except BaseException as e: self._box['err'] = e
+        self._thread = threading.Thread(target=bg)
+        self._thread.start()
+
+    def wait(self):
+        self._thread.join()
+        if 'err' in self._box: raise self._box['err']
+        return self._box['ans']
 
 
 def run(c):
@@ -220,10 +237,15 @@ def run(c):
     st.sequences()
     st.containers()
     c.log('%d model requests generated' % len(b.lines))
-    b.run(c)
+    # the real-only streams (no model involved) run while the Lean driver works on the batch
+    b.start(c)
+    try:
+        st.real_only()
+        c.log('real-only streams done')
+    finally:
+        ans = b.wait()
+    b.dispatch(ans)
     c.log('model answers compared')
-    st.real_only()
-    c.log('real-only streams done')
     st.finish()
     for name in broken:
         st.search_after_broken_proof(name)
